@@ -35,15 +35,29 @@ IntOf(t) ==
   IF Len(t) >= 2 /\ t[1] = 48 /\ t[2] \in {120, 88} THEN (IF Len(t) = 2 THEN -1 ELSE DigitsVal(SubSeq(t, 3, Len(t)), 16, 0))
   ELSE IF Len(t) >= 2 /\ t[1] = 48 THEN DigitsVal(Tail(t), 8, 0)
   ELSE DigitsVal(t, 10, 0)
-\* strings: only the escapes \\ \" \n \t are in the prototype's domain; [ok, s]
+\* strings: the escapes of Go's double-quoted literals: \a \b \f \n \r \t \v \\ \" , \ooo (3 octal digits, <= 255), \xhh (a byte), \uhhhh
+\* (a code point, UTF-8 encoded; surrogates are invalid). \U and anything else: not ok (the caller treats it as out of domain). [ok, s]
+Utf8(cp) == IF cp < 128 THEN <<cp>> ELSE IF cp < 2048 THEN <<192 + (cp \div 64), 128 + (cp % 64)>>
+            ELSE <<224 + (cp \div 4096), 128 + ((cp \div 64) % 64), 128 + (cp % 64)>>
+HexVal(bs) == DigitsVal(bs, 16, 0)
 RECURSIVE Unq(_)
 Unq(bs) ==
+  LET bad == [ok |-> FALSE, s |-> <<>>] IN
   IF bs = <<>> THEN [ok |-> TRUE, s |-> <<>>]
   ELSE IF Head(bs) = 92 THEN
-       (IF Len(bs) < 2 THEN [ok |-> FALSE, s |-> <<>>]
-        ELSE LET c == bs[2] r == Unq(SubSeq(bs, 3, Len(bs)))
-                 v == CASE c = 92 -> 92 [] c = 34 -> 34 [] c = 110 -> 10 [] c = 116 -> 9 [] OTHER -> -1
-             IN IF v < 0 THEN [ok |-> FALSE, s |-> <<>>] ELSE [ok |-> r.ok, s |-> <<v>> \o r.s])
+       (IF Len(bs) < 2 THEN bad
+        ELSE LET c == bs[2] IN
+             IF c = 120 THEN (IF Len(bs) < 4 \/ HexVal(SubSeq(bs, 3, 4)) < 0 THEN bad
+                              ELSE LET r == Unq(SubSeq(bs, 5, Len(bs))) IN [ok |-> r.ok, s |-> <<HexVal(SubSeq(bs, 3, 4))>> \o r.s])
+             ELSE IF c = 117 THEN (IF Len(bs) < 6 \/ HexVal(SubSeq(bs, 3, 6)) < 0 THEN bad
+                                   ELSE LET cp == HexVal(SubSeq(bs, 3, 6)) r == Unq(SubSeq(bs, 7, Len(bs))) IN
+                                        IF cp >= 55296 /\ cp <= 57343 THEN bad ELSE [ok |-> r.ok, s |-> Utf8(cp) \o r.s])
+             ELSE IF c >= 48 /\ c <= 55 THEN (IF Len(bs) < 4 \/ DigitsVal(SubSeq(bs, 2, 4), 8, 0) < 0 \/ DigitsVal(SubSeq(bs, 2, 4), 8, 0) > 255 THEN bad
+                                               ELSE LET r == Unq(SubSeq(bs, 5, Len(bs))) IN [ok |-> r.ok, s |-> <<DigitsVal(SubSeq(bs, 2, 4), 8, 0)>> \o r.s])
+             ELSE LET r == Unq(SubSeq(bs, 3, Len(bs)))
+                      v == CASE c = 92 -> 92 [] c = 34 -> 34 [] c = 110 -> 10 [] c = 116 -> 9 [] c = 114 -> 13 [] c = 97 -> 7 [] c = 98 -> 8
+                             [] c = 102 -> 12 [] c = 118 -> 11 [] OTHER -> -1
+                  IN IF v < 0 THEN bad ELSE [ok |-> r.ok, s |-> <<v>> \o r.s])
   ELSE LET r == Unq(Tail(bs)) IN [ok |-> r.ok, s |-> <<Head(bs)>> \o r.s]
 Unquote(text) == Unq(SubSeq(text, 2, Len(text) - 1))
 
@@ -157,7 +171,8 @@ StBlock(s) ==
   ELSE LET btype == s1.prev.text
            s2 == Match(s1, "STR")
            bname == IF Check(s1, "STR") THEN (LET u == Unquote(s1.cur.text) IN IF u.ok THEN u.s ELSE <<>>) ELSE <<>>
-           s3 == Consume(s2, "LCURLY", "expected '{'")
+           nameOod == Check(s1, "STR") /\ ~Unquote(s1.cur.text).ok        \* a name literal outside the decoder's domain
+           s3 == LET c3 == Consume(s2, "LCURLY", "expected '{'") IN IF nameOod THEN [c3 EXCEPT !.ood = TRUE] ELSE c3
            r1 == IdentConst(s3, btype)
            r2 == MakeConst(r1.s, CStr(bname))
            s4 == EmitBytes(EmitOpA(r2.s, "DEFBLOCK", r1.idx), EncUv(r2.idx))
